@@ -246,6 +246,29 @@ func (c *Cluster) debugStateAlways(tag string) {
 	}
 }
 
+// signature: what heal looks at to decide that nothing moves any more (timers excluded).
+func (c *Cluster) signature() string {
+	var sb strings.Builder
+	fmt.Fprintf(&sb, "net=%d;", len(c.net))
+	for _, id := range c.ids {
+		n := c.nodes[id]
+		if !n.alive || n.rn == nil {
+			fmt.Fprintf(&sb, "%d:down;", id)
+			continue
+		}
+		d := n.rn.VerifState()
+		v := n.logView(&d)
+		fmt.Fprintf(&sb, "%d:%s/%d/%d/%d/%d/%d/%d/%d/%s/%d/%d", id, d.State, d.Term, d.Vote, d.Lead, d.Committed, d.Applied, v.last(), v.lastTerm(), cfgStr(d.Config),
+			len(d.UnstableEntries), d.LeadTransferee)
+		for _, pid := range sortedU64(d.Progress) {
+			pr := d.Progress[pid]
+			fmt.Fprintf(&sb, "[%d:%s/%d/%d/%d/%v]", pid, pr.State, pr.Match, pr.Next, pr.PendingSnapshot, pr.Paused)
+		}
+		sb.WriteByte(';')
+	}
+	return sb.String()
+}
+
 func (c *Cluster) healRound() {
 	if c.over() {
 		return
@@ -278,6 +301,9 @@ func (c *Cluster) heal() {
 	var st convState
 	rounds := 0
 	c.debugState("heal starts")
+	// a cluster whose nodes have not changed at all for more than three election timeouts (every
+	// randomized timeout has fired by then) will not change any more: stop waiting
+	last, same := "", 0
 	for ; rounds < healTimeouts*et && !c.stopped; rounds++ {
 		members = c.settle(retired)
 		if len(members) == 0 {
@@ -286,6 +312,13 @@ func (c *Cluster) heal() {
 		c.healRound()
 		if st = c.converged(c.settle(retired)); st.ok {
 			break
+		}
+		if sig := c.signature(); sig == last {
+			if same++; same > 3*et+2 {
+				break
+			}
+		} else {
+			last, same = sig, 0
 		}
 	}
 	if c.stopped || len(c.tainted) > 0 {
